@@ -116,6 +116,7 @@ func driveObs(args []string) int {
 	outp := op.str("out", "trace.ndjson")
 	max := op.int("max", 1000)
 	stride := op.int("stride", 1)
+	seed := op.int("seed", 1)
 	f, err := os.Create(outp)
 	if err != nil {
 		fmt.Fprintln(os.Stderr, err)
@@ -130,8 +131,13 @@ func driveObs(args []string) int {
 	eachCase(openIn(op), func(raw []byte) {
 		var c struct {
 			Src   []int  `json:"src"`
+			Thin  int    `json:"thin"`
 			Shape string `json:"shape"`
 			N     int    `json:"n"`
+		}
+		if json.Unmarshal(raw, &c) == nil && c.Thin > 0 {
+			stride = c.Thin // a marker line of the runner: the cases that follow are thinned one in c.Thin
+			return
 		}
 		if json.Unmarshal(raw, &c) != nil || (len(c.Src) == 0 && c.Shape == "") {
 			return
@@ -144,7 +150,7 @@ func driveObs(args []string) int {
 			return
 		}
 		seen++
-		if c.Shape == "" && (seen%stride != 0 || s.Judged >= max) {
+		if c.Shape == "" && (!thinKeep(src, stride, seed) || s.Judged >= max) {
 			return
 		}
 		s.Judged++
